@@ -141,7 +141,9 @@ void Proto::onRecvJson(const Json &js)
 
     } else if (js.is_array()) {
         for (auto &js_item : js) {
-            onRecvJson(js_item);
+            //! 批量消息的元素只能是对象，不再递归处理嵌套数组，防止恶意的深层嵌套耗尽栈
+            if (js_item.is_object())
+                onRecvJson(js_item);
         }
     }
 }
